@@ -13,6 +13,7 @@ import (
 	"encoding/binary"
 	"encoding/json"
 	"fmt"
+	"hash"
 	"math/big"
 	"strings"
 
@@ -172,7 +173,7 @@ func vC16Budget(k *vKit, slow bool) int {
 		if slow {
 			return 60
 		}
-		return 1200
+		return 800
 	}
 	if slow {
 		return 24
@@ -453,7 +454,7 @@ func vC16RunJWE(k *vKit, gen vSx, r *vRng, alg, enc string, zip, size, ser int) 
 	}
 	var aad []byte
 	if ser != 0 && r.chance(2, 3) {
-		aad = r.bytes(r.pickInt(1, 5, 16, 40))
+		aad = r.bytes(r.pickInt(1, 5, 16, 40, 0)) // 0: zero-length, non-nil
 	}
 	var text string
 	err, pan := vC16Try(func() error {
@@ -603,7 +604,7 @@ func vC16RunJWE(k *vKit, gen vSx, r *vRng, alg, enc string, zip, size, ser int) 
 			fail("rfc7516-reference-decrypt", fmt.Sprintf("second recipient: %v", err))
 		}
 	}
-	if t.hasAad != (aad != nil) || !bytes.Equal(aadb, aad) {
+	if t.hasAad != (len(aad) > 0) || !bytes.Equal(aadb, aad) {
 		fail("rfc7516-aad", fmt.Sprintf("aad member %q for aad %x", t.aad64, aad))
 	}
 	// 3. a different key
@@ -1001,6 +1002,42 @@ func vC16Crafted(k *vKit) {
 				k.fail(0, len(txt), "crafted-rejected", "", fmt.Sprintf("%s %s decrypted to %x", enc, v.name, out))
 			}
 			vC16RunStruct(k, vL(vZ(4), vS(txt)))
+		}
+	}
+	// header precedence: alg comes from the PROTECTED header when both headers name one.
+	// (a) signed as HS256 with protected alg HS256, unprotected header claims HS512: verifies;
+	// (b) MAC computed with HS512 over the same input, unprotected header says HS512, protected
+	//     says HS256: must be rejected (the unprotected header cannot redirect the algorithm).
+	{
+		hk := r.bytes(32)
+		prot64 := vC16B64.EncodeToString([]byte(`{"alg":"HS256"}`))
+		pay64 := vC16B64.EncodeToString([]byte("precedence"))
+		mac := func(hf func() hash.Hash) string {
+			m := hmac.New(hf, hk)
+			m.Write([]byte(prot64 + "." + pay64))
+			return vC16B64.EncodeToString(m.Sum(nil))
+		}
+		_, h256 := vC16RefHash("256")
+		_, h512 := vC16RefHash("512")
+		for i, sig := range []string{mac(h256), mac(h512)} {
+			js := fmt.Sprintf(`{"payload":"%s","protected":"%s","header":{"alg":"HS512"},"signature":"%s"}`, pay64, prot64, sig)
+			var out []byte
+			err, pan := vC16Try(func() error {
+				o, err := ParseSigned(js)
+				if err != nil {
+					return err
+				}
+				out, err = o.Verify(hk)
+				return err
+			})
+			k.count("crafted", "header-precedence")
+			if pan != "" {
+				k.fail(0, len(js), "crafted-no-panic", "", js+": "+pan)
+			} else if i == 0 && (err != nil || string(out) != "precedence") {
+				k.fail(0, len(js), "header-precedence", "", fmt.Sprintf("protected alg HS256 not honoured: %v", err))
+			} else if i == 1 && err == nil {
+				k.fail(0, len(js), "header-precedence", "", "the unprotected header overrode the protected alg")
+			}
 		}
 	}
 	// JSON serialization without / with an empty protected header; alg and enc unprotected
